@@ -16,7 +16,9 @@ META = {
     "required": ["monitor:tracked-list", "monitor:hugr-equality", "monitor:index-error", "feature:mixed-args",
                  "feature:untrack", "feature:metadata", "feature:set_tracked_outputs",
                  "feature:set_indexed_outputs", "feature:extend", "feature:rebinding-to-other-port",
-                 "feature:command-object-reused", "feature:node-handle-as-wire"],
+                 "feature:command-object-reused", "feature:node-handle-as-wire", "feature:repeated-index",
+                 "feature:set_indexed_outputs-untracked-index", "feature:add-index-names-freed-hole",
+                 "feature:plain-side-through-add"],
     "reach": ["hugr.build.tracked_dfg:TrackedDfg.add", "hugr.build.tracked_dfg:TrackedDfg.tracked_wire",
               "hugr.build.tracked_dfg:TrackedDfg.untrack_wire", "hugr.build.tracked_dfg:TrackedDfg.set_tracked_outputs"],
     "assumptions": ["non-negative indices only (negative indexing into the tracked list is not part of the statement)",
@@ -85,13 +87,24 @@ def gen_script(r, max_steps):
                     elif cands_w and r.random() < 0.9:
                         args.append(r.choice(cands_w)[0])
                     elif r.random() < 0.5 and pos < len(outs):
-                        args.append(len(tracked) + r.randrange(2))  # untracked: IndexError
+                        # untracked: IndexError -- an index beyond the list, or one that was tracked and given up
+                        holes = [i for i, x in enumerate(tracked) if x is None]
+                        args.append(r.choice(holes) if holes and r.random() < 0.6 else len(tracked) + r.randrange(2))
                     elif wires:
                         args.append(r.choice(wires)[0])
                     else:
                         args.append(0)
+                repeat = None
+                if (ncmds == 1 and name in ("And2", "Fan3", "Swap") and r.random() < 0.3 and isinstance(args[0], int)
+                        and args[0] < len(tracked) and tracked[args[0]] == "b" and ins[:2] == "bb"):
+                    # ONE copyable tracked index at two argument positions: both inputs get the wire tracked there now
+                    args[1] = args[0]
+                    repeat = args[0]
                 md = {"m": r.randint(0, 9)} if r.random() < 0.3 else None
                 cmds.append({"op": name, "ty": ins if name == "Noop" else None, "args": args, "md": md})
+                if repeat is not None:
+                    cmds[-1]["repeat"] = repeat
+                    dangling.append(repeat)
                 # shadow effects (only if every int arg is tracked)
                 if all(not isinstance(a, int) or (a < len(tracked) and tracked[a] is not None) for a in args):
                     k = nadd
@@ -101,6 +114,8 @@ def gen_script(r, max_steps):
                     for pos, a in enumerate(args):
                         if isinstance(a, int):
                             tracked[a] = outs[pos] if pos < len(outs) else "?"
+                    if repeat is not None:
+                        tracked[repeat] = "?"      # which of the two positions wins is not stated: given up at once
                 else:
                     break
             if len(cmds) == 1:
@@ -134,7 +149,10 @@ def gen_script(r, max_steps):
         outs = []
         for _ in range(r.randint(0, 4)):
             cands_i = [i for i, x in enumerate(tracked) if x is not None]
-            if cands_i and r.random() < 0.6:
+            holes = [i for i, x in enumerate(tracked) if x is None]
+            if r.random() < 0.08:
+                outs.append(r.choice(holes) if holes and r.random() < 0.7 else len(tracked) + r.randrange(2))
+            elif cands_i and r.random() < 0.6:
                 outs.append(r.choice(cands_i))
             elif wires:
                 outs.append(r.choice(wires)[0])
@@ -205,6 +223,8 @@ def run_script(ctx, sc, stratum="script"):
     def do_add(cmd, step, via_extend=False, again=None):
         args = cmd["args"]
         untracked = [a for a in args if isinstance(a, int) and not (a < len(model) and model[a] is not None)]
+        if any(a < len(model) for a in untracked):
+            ctx.feat("feature:add-index-names-freed-hole")
         op_t, op_p = mk_op(cmd), mk_op(cmd)
         targs = [a if isinstance(a, int) else tw(a) for a in args]
         ctx.count("monitor:index-error")
@@ -237,10 +257,15 @@ def run_script(ctx, sc, stratum="script"):
         if cmd.get("md") is not None:
             ctx.feat("feature:metadata")
         pargs = [W[model[a]][1] if isinstance(a, int) else W[key(a)][1] for a in args]
+        # the explicit side: add_op(op, *wires) or add(op(*wires)) -- the same thing by two entry points
+        use_add = (nadd[0] + len(args)) % 2 == 1
+        if use_add:
+            ctx.feat("feature:plain-side-through-add")
         if cmd.get("md") is not None and not via_extend and again is None:
-            pn = pd.add_op(op_p, *pargs, metadata=dict(cmd["md"]))
+            pn = (pd.add(op_p(*pargs), metadata=dict(cmd["md"])) if use_add
+                  else pd.add_op(op_p, *pargs, metadata=dict(cmd["md"])))
         else:
-            pn = pd.add_op(op_p, *pargs)
+            pn = pd.add(op_p(*pargs)) if use_add else pd.add_op(op_p, *pargs)
         k = nadd[0]
         nadd[0] += 1
         info["adds"] += 1
@@ -254,6 +279,18 @@ def run_script(ctx, sc, stratum="script"):
                 model[a] = ("out", k, pos)
                 if pos > 0:
                     ctx.feat("feature:rebinding-to-other-port")
+        rep = cmd.get("repeat")
+        if rep is not None and args.count(rep) >= 2:
+            # an index named twice: both inputs were wired from the wire tracked before (the HUGR comparison decides
+            # that); it is now bound to the node's output at ONE of its positions -- which one is not stated
+            ctx.feat("feature:repeated-index")
+            cands = [("out", k, pos) for pos, a in enumerate(args) if a == rep]
+            cur = td.tracked[rep] if rep < len(td.tracked) else None
+            hit = [c for c in cands if cur is not None and cur.out_port() == W[c][0]]
+            if not hit:
+                bad("repeated-index-rebinding", [step, args], [repr(W[c][0]) for c in cands], repr(cur))
+                return False
+            model[rep] = hit[0]
         return True
 
     for si, st in enumerate(sc["steps"]):
@@ -343,6 +380,8 @@ def run_script(ctx, sc, stratum="script"):
             ctx.feat("feature:set_indexed_outputs")
             outs = st[1]
             untracked = [a for a in outs if isinstance(a, int) and not (a < len(model) and model[a] is not None)]
+            if untracked:
+                ctx.feat("feature:set_indexed_outputs-untracked-index")
             try:
                 td.set_indexed_outputs(*[a if isinstance(a, int) else tw(a) for a in outs])
                 got = "ok"
